@@ -39,12 +39,13 @@ def kv (ws : List String) (k : String) : Option String :=
 
 def kvNat (ws : List String) (k : String) : Option Nat := (kv ws k).bind String.toNat?
 
-/-- the nominal handshake of the abstract engine (TLS 1.3 shaped): client hello, server flight, client
-finished; the server then sends `nominalPost` cells of session tickets -/
+/-- the nominal handshake of the abstract engine (TLS 1.3 shaped, a tenth of the real sizes): client hello,
+server flight, client finished; the server then sends `nominalPost` cells of session tickets. The outcome
+lines do not depend on the sizes (`Props.C15.handshake_completes` holds for every tape). -/
 def nominalTape : List Side :=
-  List.replicate 517 Side.client ++ List.replicate 1500 Side.server ++ List.replicate 80 Side.client
+  List.replicate 52 Side.client ++ List.replicate 150 Side.server ++ List.replicate 8 Side.client
 
-def nominalPost : Nat := 500
+def nominalPost : Nat := 50
 
 def parseSteps : List String → Option (List (String × Step × Step))
   | [] => some []
